@@ -753,6 +753,115 @@ def shared_root(p, mod, cls, o, params=()):
     return None
 
 
+# --------------------------------------------------------------------------------------------- context managers
+
+def expand_context_managers(fn_node, K, sn, depth=0):
+    """Copy of the function in which `with self.<m>(..):` on a @contextmanager generator method of the class is replaced by the
+    generator's body with the `with` block in the place of its single `yield` (set-up before, clean-up after, the try / finally or
+    except around the yield kept): what the override / restore idiom does is then visible to path rules whether it is written in
+    line or as a reusable context manager."""
+    import copy
+
+    def generator(call):
+        f = call.func
+        if not (isinstance(f, ast.Attribute) and isinstance(f.value, ast.Name) and f.value.id == sn and K is not None):
+            return None
+        m = K.lookup(f.attr)
+        if not (m and m[1] == "method"):
+            return None
+        g = m[2]
+        if not any(unparse(d).split(".")[-1] == "contextmanager" for d in g.node.decorator_list):
+            return None
+        ys = [x for x in ast.walk(g.node) if isinstance(x, (ast.Yield, ast.YieldFrom))]
+        if len(ys) != 1 or isinstance(ys[0], ast.YieldFrom):
+            return None
+        if g.node.args.vararg or g.node.args.kwarg or any(isinstance(a, ast.Starred) for a in call.args):
+            return None
+        return g
+
+    counter = [0]
+
+    def inline(g, call, as_var, body):
+        counter[0] += 1
+        tag = f"__cm{depth}_{counter[0]}"
+        gnode = copy.deepcopy(g.node)
+        gself = g.params[0] if g.params else None
+        bound = {x.id for x in ast.walk(gnode) if isinstance(x, ast.Name) and isinstance(x.ctx, ast.Store)} | set(g.params)
+        ren = {b: (sn if b == gself else b + tag) for b in bound}
+        for x in ast.walk(gnode):
+            if isinstance(x, ast.Name) and x.id in ren:
+                x.id = ren[x.id]
+        pre = []
+        prm = g.params[1:]
+        a = gnode.args
+        defaults = dict(zip([x.arg for x in (a.posonlyargs + a.args)][len(a.posonlyargs + a.args) - len(a.defaults):], a.defaults))
+        args = dict(zip(prm, call.args))
+        args.update({kw.arg: kw.value for kw in call.keywords if kw.arg})
+        for nm in prm:
+            val = args.get(nm, defaults.get(nm))
+            if val is None:
+                return None
+            pre.append(ast.copy_location(ast.Assign(targets=[ast.Name(id=nm + tag, ctx=ast.Store())], value=copy.deepcopy(val), lineno=call.lineno), call))
+        done = [False]
+
+        def put(stmts):
+            out = []
+            for st in stmts:
+                y = None
+                if isinstance(st, ast.Expr) and isinstance(st.value, ast.Yield):
+                    y = st.value
+                elif isinstance(st, ast.Assign) and isinstance(st.value, ast.Yield):
+                    y = st.value
+                if y is not None:
+                    done[0] = True
+                    if as_var is not None:
+                        val = y.value if y.value is not None else ast.Constant(value=None)
+                        out.append(ast.copy_location(ast.Assign(targets=[copy.deepcopy(as_var)], value=val, lineno=st.lineno), st))
+                    out += body
+                    continue
+                if isinstance(st, (ast.For, ast.While, ast.FunctionDef, ast.AsyncFunctionDef)) and any(isinstance(x, ast.Yield) for x in ast.walk(st)):
+                    raise ValueError("yield in a loop")
+                for fld in ("body", "orelse", "finalbody"):
+                    blk = getattr(st, fld, None)
+                    if isinstance(blk, list) and blk and isinstance(blk[0], ast.stmt):
+                        setattr(st, fld, put(blk))
+                for h in getattr(st, "handlers", []) or []:
+                    h.body = put(h.body)
+                out.append(st)
+            return out
+
+        try:
+            stmts = put([x for x in gnode.body if not (isinstance(x, ast.Expr) and isinstance(x.value, ast.Constant) and isinstance(x.value.value, str))])
+        except ValueError:
+            return None
+        return pre + stmts if done[0] else None
+
+    def block(stmts):
+        out = []
+        for st in stmts:
+            for fld in ("body", "orelse", "finalbody"):
+                blk = getattr(st, fld, None)
+                if isinstance(blk, list) and blk and isinstance(blk[0], ast.stmt):
+                    setattr(st, fld, block(blk))
+            for h in getattr(st, "handlers", []) or []:
+                h.body = block(h.body)
+            if isinstance(st, ast.With) and st.items and isinstance(st.items[0].context_expr, ast.Call):
+                g = generator(st.items[0].context_expr)
+                if g is not None:
+                    inner = st.body if len(st.items) == 1 else [ast.copy_location(ast.With(items=st.items[1:], body=st.body), st)]
+                    rep = inline(g, st.items[0].context_expr, st.items[0].optional_vars, inner)
+                    if rep is not None:
+                        out += block(rep) if depth < 3 else rep
+                        continue
+            out.append(st)
+        return out
+
+    node = copy.deepcopy(fn_node)
+    node.body = block(node.body)
+    ast.fix_missing_locations(node)
+    return node
+
+
 # --------------------------------------------------------------------------------------------- merged mappings
 
 def layers(e):
